@@ -170,23 +170,4 @@ def check(tier):
 
 
 def replay(path):
-    import ast
-
-    import fickling.fickle as fk
-    from fickling.analysis import check_safety
-
-    from .. import refvm
-    from ..vocab import NAME, floor_of
-
-    case = json.load(open(path))["case"]
-    data = bytes.fromhex(case["bytes"]["hex"])
-    vm = refvm.RefVM(data)
-    vm.run()
-    fl, why = floor_of(vm.world)
-    p = fk.Pickled.load(data)
-    print(ast.unparse(p.ast))
-    res = check_safety(p)
-    print("verdict", res.severity.name, "floor", NAME[fl], why)
-    for r in res.results:
-        print("  ", r.severity.name, r.analysis_name, r.message)
-    return 0
+    return e1.replay_terminal(PROP, path, [oracles.c04_floor])
